@@ -171,7 +171,7 @@ class LogCtx(BaseCtx):
             return ["send", k, cfg["peer_open"], []]
         if st == "OPENCONFIRM":
             return ["send", k, rp.encode_keepalive().hex(), []]
-        kind = rng.weighted([("update", 6), ("bad_update", 1.5), ("keepalive", 1.5), ("rr", 1), ("notif", 0.4), ("close", 0.4),
+        kind = rng.weighted([("update", 6), ("bad_update", 1.5), ("keepalive", 1.5), ("rr", 1), ("notif", 0.7), ("close", 0.4),
                              ("big_update", 1)])
         if kind == "update":
             return ["send", k, base.gen_update(rng, cfg, True).hex(), []]
@@ -189,6 +189,10 @@ class LogCtx(BaseCtx):
         if kind == "rr":
             return ["send", k, base.gen_rr(rng).hex(), []]
         if kind == "notif":
+            if rng.chance(0.5):
+                # a NOTIFICATION with a long data field (legal up to 4075 octets)
+                data = bytes(rng.randrange(1, 256) for _ in range(rng.pick([100, 1800, 2500, 4075])))
+                return ["send", k, rp.encode_notification(6, rng.pick([1, 4, 6]), data).hex(), []]
             return ["send", k, base.gen_notif(rng).hex(), []]
         return ["pclose", k, rng.chance(0.5)]
 
